@@ -221,10 +221,12 @@ func init() {
 		Register(c04Profile(tier))
 	})
 	Registry["C02"] = func(r *Run) {
-		r.Rule = "every sequence of <=depth ops over the sparse-mode KV alphabet (1 bucket x 4 keys x {put '',put x,put TTL,delete}, tick, reopen, 2 two-call transactions) with seg=100 (two records per segment, so most keys live in sealed segments reached through the on-disk index files); every Get/GetAll/RangeScan/PrefixScan of the grid vs the ordered-map model; non-trivial = model states where some read returns data and some fails"
+		r.Rule = "every sequence of <=depth ops over the sparse-mode KV alphabet (1 bucket x 4 keys x {put '',put x,put TTL,delete}, tick, reopen, 2 two-call transactions) with seg=100 (two records per segment, so most keys live in sealed segments reached through the on-disk index files); every Get/GetAll/RangeScan/PrefixScan of the grid vs the ordered-map model; non-trivial = model states where some read returns data and some fails; plus long deterministic families (6..14, thorough 24, single-put transactions in ascending/descending/zig-zag key order, 8-13 per segment so that the on-disk key tree and transaction-id tree have inner nodes, overwrites and deletes in later segments, reopen) judged after every step"
 		r.Assume = []string{"single bucket (ambiguous bucket+key concatenations are C04's)", "bytes outside the alphabet not covered"}
 		r.Required = []string{"rotated", "tick", "reopen", "delete", "sealed-segment-index"}
 		r.Explore(c02Profile(r.Tier))
+		// many transactions per segment: inner nodes in the on-disk key tree and transaction-id tree
+		runKVLong(r, "C02", []core.Cfg{{Mode: core.S, Seg: 392}, {Mode: core.S, Seg: 600}, {Mode: core.S, RW: core.M, Start: core.M, Seg: 410}})
 	}
 	Registry["C03"] = func(r *Run) {
 		r.Rule = "every sequence of <=depth ops over {put,expiring put,delete} x 4 prefixed keys + tick + reopen in KV, key-only and sparse mode; in every reached state every PrefixScan(prefix,offset,limit) with offset 0..n+1, limit 1..n+1 and every PrefixSearchScan(prefix,re,0,limit) is compared with 'live prefixed keys, skip offset, take limit'"
